@@ -15,7 +15,7 @@ if ! cmp -s lean/Pw/Generated/TransCopy.lean.new lean/Pw/Generated/TransCopy.lea
 if ! cmp -s lean/Pw/Generated/TransError.lean.new lean/Pw/Generated/TransError.lean; then mv lean/Pw/Generated/TransError.lean.new lean/Pw/Generated/TransError.lean; else rm lean/Pw/Generated/TransError.lean.new; fi
 ./bin/pwextract "${VERIF_REPO:-/repo}" > lean/Pw/Generated/Facts.lean.new
 if ! cmp -s lean/Pw/Generated/Facts.lean.new lean/Pw/Generated/Facts.lean; then mv lean/Pw/Generated/Facts.lean.new lean/Pw/Generated/Facts.lean; else rm lean/Pw/Generated/Facts.lean.new; fi
-(cd lean && lake build Pw pwdriver Pw.Conformance Pw.Props.All Pw.Props.Tie Pw.Props.TieFraming Pw.Props.TieWriter Pw.Props.TieCopy Pw.Props.TieSlurp Pw.Props.TieError)
+(cd lean && lake build Pw pwdriver Pw.Conformance Pw.Props.All Pw.Props.Tie Pw.Props.TieFraming Pw.Props.TieWriter Pw.Props.TieCopy Pw.Props.TieSlurp Pw.Props.TieError Pw.Props.TieCopy2)
 cp "${VERIF_REPO:-/repo}/go.sum" go/harness/go.sum
 (cd go/harness && go build -tags verif -o ../../bin/pwharness .)
 echo "setup done"
